@@ -30,7 +30,7 @@ WHAT = {
     "is_proper": "is_proper of {x} disagrees with its operations",
     "subgroups": "subgroups/proper_subgroups of {x} disagree with set inclusion over the 38 named groups",
     "sg": "point group assigned to space group {x} is not the set of rotational parts of its symmetry operations in the Cartesian crystal frame",
-    "phase": "Phase(space_group={x}).point_group differs from get_point_group({x})",
+    "phase": "Phase(space_group={x}).point_group (of a fresh Phase, or after assigning space_group={x} to a Phase whose point group had been read) differs from get_point_group({x})",
 }
 
 
